@@ -250,37 +250,81 @@ def run(chk):
 
 
 def check_r6(chk, F, cls):
+    """getEnergyGrad (both overloads) delivers exactly what the four getters of R3-R5 compute: decided by comparing the
+    interpreted *content* (boundary vectors, the loops that fill the two arrays, their sizes), so it does not matter
+    whether the wrapper calls the getters, a shared helper with out-parameters, or inlines them."""
     gs = F.funcs(cls, "getEnergyGrad")
     ref_over = [g for g in gs if len(g["params"]) == 1]
     val_over = [g for g in gs if len(g["params"]) == 0]
     if len(ref_over) != 1 or len(val_over) != 1:
         raise Broken("getEnergyGrad overloads not found")
+
+    def run(f, with_params=True):
+        I = Interp(F, cls)
+        I.field_assumptions["num_segments_"] = {"positive": True}
+        I.case = {"first": False, "last": False}
+        env = {p["id"]: I.make_value(p["name"], p["ty"]) for p in f["params"]}
+        try:
+            ret = I.run_body(f, env)
+        except Unsupported as ex:
+            raise Broken("%s not analysable: %s" % (f["name"], ex))
+        return I, env, ret
+
+    def leaves(st, pre=""):
+        out = {}
+        for k, v in st.f.items():
+            if isinstance(v, Struct):
+                out.update(leaves(v, pre + k + "."))
+            else:
+                out[pre + k] = v
+        return out
+
+    def loop_sig(L):
+        v = sp.Symbol("q_", integer=True)
+        sig = []
+        for e in L.effects:
+            val = sub_vec_index(e.value, {L.var: v}) if isinstance(e.value, Vec) else (sp.sympify(e.value).xreplace({L.var: v}) if isinstance(e.value, sp.Basic) else e.value)
+            key = tuple(sp.expand(sp.sympify(k).xreplace({L.var: v})) if not isinstance(k, str) else k for k in e.key)
+            sig.append((key, e.op, repr(val.clean()) if isinstance(val, Vec) else sp.sstr(sp.expand(val)) if isinstance(val, sp.Basic) else str(val)))
+        return (sp.sstr(L.lo), L.cond_op, sp.sstr(L.hi), L.step, tuple(sig))
+
     g = ref_over[0]
     chk.saw(g)
-    pid = g["params"][0]["id"]
-    src = {}
-    locals_from = {}
-    for n in walk(g["body"]):
-        if n.get("k") == "decl" and n.get("init") is not None:
-            c = strip_copy(n["init"])
-            if isinstance(c, dict) and c.get("k") == "call" and callee(c).get("fid") in F.by_fid:
-                locals_from[n["id"]] = callee(c)["name"]
-    for n in walk(g["body"]):
-        if n.get("k") == "call" and callee(n).get("op") == "=" and isinstance(n.get("obj"), dict) and n["obj"].get("k") == "mem":
-            o = n["obj"]
-            if o["base"].get("k") == "var" and o["base"]["id"] == pid:
-                r = strip_copy(n["args"][0])
-                if r.get("k") == "call" and callee(r).get("fid") in F.by_fid:
-                    src[o["field"]] = callee(r)["name"]
-                elif r.get("k") == "mem" and r["base"].get("k") == "var" and r["base"]["id"] in locals_from:
-                    src[o["field"]] = locals_from[r["base"]["id"]] + "." + r["field"]
-    want = {"inner_points": "getEnergyGradInnerPoints", "times": "getEnergyGradTimes",
-            "start": "getEnergyGradBoundary.start", "end": "getEnergyGradBoundary.end"}
-    for k, v in want.items():
-        chk.ob("C06-R6", "%s getEnergyGrad.%s <- %s" % (cls, k, v), src.get(k) == v, loc(g), "filled from %s" % src.get(k), construct="%s/getEnergyGrad/%s" % (cls, k))
+    Ig, envg, _ = run(g)
+    got = leaves(envg[g["params"][0]["id"]])
+    wrapper_loops = {loop_sig(L) for L in Ig.loops}
+    # boundary parts
+    gb = F.func1(cls, "getEnergyGradBoundary")
+    Ib, _, retb = run(gb)
+    if not isinstance(retb, Struct):
+        raise Broken("getEnergyGradBoundary does not return a struct")
+    wantb = leaves(retb)
+    for side in ("start", "end"):
+        keys = [k for k in wantb if k.startswith(side + ".")]
+        bad = [k for k in keys if not (isinstance(got.get(k), Vec) and isinstance(wantb[k], Vec) and got[k].add(wantb[k], -1).is_zero())]
+        chk.ob("C06-R6", "%s getEnergyGrad.%s <- getEnergyGradBoundary.%s" % (cls, side, side), bool(keys) and not bad, loc(g), "differing fields: %s" % bad if bad else "%d fields equal" % len(keys),
+               construct="%s/getEnergyGrad/%s" % (cls, side))
+    # the two arrays: the wrapper contains the very loop the getter runs, and its field has the getter's size
+    for part, getter in (("inner_points", "getEnergyGradInnerPoints"), ("times", "getEnergyGradTimes")):
+        gf = F.func1(cls, getter)
+        Ip, _, retp = run(gf)
+        sigs = [loop_sig(L) for L in Ip.loops]
+        cont = got.get(part)
+        ok = (isinstance(cont, Container) and isinstance(retp, Container) and bool(sigs) and all(sg in wrapper_loops for sg in sigs) and cont.kind == retp.kind
+              and (cont.size is None and retp.size is None or (cont.size is not None and retp.size is not None and sym.is_zero(sp.sympify(cont.size) - sp.sympify(retp.size)))))
+        chk.ob("C06-R6", "%s getEnergyGrad.%s <- %s" % (cls, part, getter), ok, loc(g), "array of size %s filled by %d loop(s) of the getter" % (getattr(cont, "size", None), len(sigs)),
+               construct="%s/getEnergyGrad/%s" % (cls, part))
     v = val_over[0]
-    calls = [n for n in walk(v["body"]) if n.get("k") == "call" and callee(n).get("fid") == g["fid"]]
-    rets = [n for n in walk(v["body"]) if n.get("k") == "return"]
-    ok = len(calls) == 1 and len(rets) == 1 and calls[0]["args"][0].get("k") == "var" and strip_copy(rets[0]["e"]).get("k") == "var" and \
-        strip_copy(rets[0]["e"])["id"] == calls[0]["args"][0]["id"]
-    chk.ob("C06-R6", "%s value overload returns what the reference overload filled" % cls, ok, loc(v), pp(v["body"]).strip()[:200], construct="%s/getEnergyGrad/value-overload" % cls)
+    chk.saw(v)
+    Iv, _, retv = run(v)
+    okv = isinstance(retv, Struct)
+    if okv:
+        lv = leaves(retv)
+        for k, x in got.items():
+            y = lv.get(k)
+            if isinstance(x, Vec):
+                okv = okv and isinstance(y, Vec) and x.add(y, -1).is_zero()
+            elif isinstance(x, Container):
+                okv = okv and isinstance(y, Container) and x.kind == y.kind and (x.size is None or y.size is None or sym.is_zero(sp.sympify(x.size) - sp.sympify(y.size)))
+        okv = okv and {loop_sig(L) for L in Iv.loops} == wrapper_loops
+    chk.ob("C06-R6", "%s value overload returns what the reference overload fills" % cls, bool(okv), loc(v), "", construct="%s/getEnergyGrad/value-overload" % cls)
